@@ -518,3 +518,10 @@ _BR_GETBRANCH_LOOP = '''    while node_hash != BLANK_HASH:
 '''
 V("silent-get-branch-generator-loop", "C13", "trie/branches.py", _BR_GETBRANCH_REC, _BR_GETBRANCH_LOOP, expect="silent", props=["C13", "C18"])
 V("c13-get-branch-generator-loop-no-yield", "C13", "trie/branches.py", _BR_GETBRANCH_REC, _BR_GETBRANCH_LOOP.replace("        yield node\n        if nodetype == KV_TYPE:\n            if keypath[: len(left_child)] != left_child:\n                return\n", "        if nodetype == KV_TYPE:\n            if keypath[: len(left_child)] != left_child:\n                return\n            yield node\n").replace("        else:\n            node_hash = left_child if", "        else:\n            yield node\n            node_hash = left_child if"), rule="SIB4")
+
+# the proof walker as a generator (tuple(...) at the entry point): TS5's second form
+_PROOF_REC = '        return self._get_proof(node, trie_key)\n\n    def _get_proof(self, node, trie_key, proven_len=0, last_proof=tuple()):\n        updated_proof = last_proof + (node,)\n        unproven_key = trie_key[proven_len:]\n\n        node_type = get_node_type(node)\n        if node_type == NODE_TYPE_BLANK:\n            return last_proof\n        elif node_type == NODE_TYPE_LEAF:\n            return updated_proof\n        elif node_type == NODE_TYPE_EXTENSION:\n            current_key = extract_key(node)\n            if key_starts_with(unproven_key, current_key):\n                next_node = self.get_node(node[1])\n                new_proven_len = proven_len + len(current_key)\n                return self._get_proof(\n                    next_node, trie_key, new_proven_len, updated_proof\n                )\n            else:\n                return updated_proof\n        elif node_type == NODE_TYPE_BRANCH:\n            if not unproven_key:\n                return updated_proof\n            next_node = self.get_node(node[unproven_key[0]])\n            new_proven_len = proven_len + 1\n            return self._get_proof(next_node, trie_key, new_proven_len, updated_proof)\n        else:\n            raise Exception("Invariant: This shouldn\'t ever happen")\n\n'
+_PROOF_GEN = '        return tuple(self._iter_proof_nodes(node, trie_key))\n\n    def _iter_proof_nodes(self, node, trie_key):\n        """\n        Yield the nodes of the proof for ``trie_key``, starting with ``node`` and\n        walking down towards the key. A blank node is never part of a proof.\n        """\n        unproven_key = trie_key\n        while True:\n            node_type = get_node_type(node)\n            if node_type == NODE_TYPE_BLANK:\n                return\n\n            yield node\n\n            if node_type == NODE_TYPE_LEAF:\n                return\n            elif node_type == NODE_TYPE_EXTENSION:\n                current_key = extract_key(node)\n                if not key_starts_with(unproven_key, current_key):\n                    return\n                next_node_pointer = node[1]\n                newly_proven_len = len(current_key)\n            elif node_type == NODE_TYPE_BRANCH:\n                if not unproven_key:\n                    return\n                next_node_pointer = node[unproven_key[0]]\n                newly_proven_len = 1\n            else:\n                raise Exception("Invariant: This shouldn\'t ever happen")\n\n            node = self.get_node(next_node_pointer)\n            unproven_key = unproven_key[newly_proven_len:]\n\n'
+V("silent-proof-walker-generator", "C03", HX, _PROOF_REC, _PROOF_GEN, expect="silent", props=["C03", "C07", "C01", "C18"])
+V("c03-proof-generator-leaf-not-yielded", "C03", HX, _PROOF_REC, '        return tuple(self._iter_proof_nodes(node, trie_key))\n\n    def _iter_proof_nodes(self, node, trie_key):\n        """\n        Yield the nodes of the proof for ``trie_key``, starting with ``node`` and\n        walking down towards the key. A blank node is never part of a proof.\n        """\n        unproven_key = trie_key\n        while True:\n            node_type = get_node_type(node)\n            if node_type == NODE_TYPE_BLANK:\n                return\n\n            if node_type == NODE_TYPE_LEAF:\n                return\n\n            yield node\n            if node_type == NODE_TYPE_EXTENSION:\n                current_key = extract_key(node)\n                if not key_starts_with(unproven_key, current_key):\n                    return\n                next_node_pointer = node[1]\n                newly_proven_len = len(current_key)\n            elif node_type == NODE_TYPE_BRANCH:\n                if not unproven_key:\n                    return\n                next_node_pointer = node[unproven_key[0]]\n                newly_proven_len = 1\n            else:\n                raise Exception("Invariant: This shouldn\'t ever happen")\n\n            node = self.get_node(next_node_pointer)\n            unproven_key = unproven_key[newly_proven_len:]\n\n', rule="TS5")
+V("c03-proof-generator-extension-consumes-one", "C03", HX, _PROOF_REC, '        return tuple(self._iter_proof_nodes(node, trie_key))\n\n    def _iter_proof_nodes(self, node, trie_key):\n        """\n        Yield the nodes of the proof for ``trie_key``, starting with ``node`` and\n        walking down towards the key. A blank node is never part of a proof.\n        """\n        unproven_key = trie_key\n        while True:\n            node_type = get_node_type(node)\n            if node_type == NODE_TYPE_BLANK:\n                return\n\n            yield node\n\n            if node_type == NODE_TYPE_LEAF:\n                return\n            elif node_type == NODE_TYPE_EXTENSION:\n                current_key = extract_key(node)\n                if not key_starts_with(unproven_key, current_key):\n                    return\n                next_node_pointer = node[1]\n                newly_proven_len = len(current_key)\n            elif node_type == NODE_TYPE_BRANCH:\n                if not unproven_key:\n                    return\n                next_node_pointer = node[unproven_key[0]]\n                newly_proven_len = 1\n            else:\n                raise Exception("Invariant: This shouldn\'t ever happen")\n\n            node = self.get_node(next_node_pointer)\n            unproven_key = unproven_key[1:]\n\n', rule="TS5")
